@@ -266,9 +266,24 @@ def run_dag(ctx, spec, formulas, gid):
         except (ParseError, ValueError) as e:
             r.count('closure_no_opinion')
             continue
-        t = pipeline.translate(whole.path, entry=pipeline.entry_cell(titles[s], a))
+        # the entry cell as the caller may hold it: spelled by title and A1 address, by numbers, carrying a value of its own, or the
+        # very object an Executor of the whole-file class handed out (computed value inside, identifiers already resolved)
+        how = ('a1', 'numeric', 'with-value', 'from-executor')[(len(a) + s + (gid[1] if isinstance(gid, tuple) else 0)) % 4]
+        rr0, cc0 = wbspec.rc(a)
+        if how == 'a1':
+            ecell = pipeline.entry_cell(titles[s], a)
+        elif how == 'numeric':
+            ecell = pipeline.ncell(s, rr0, cc0)
+        elif how == 'with-value':
+            ecell = pipeline.entry_cell(titles[s], a)
+            ecell.value = 'stale value of the caller'
+        else:
+            got = pipeline.guarded(lambda: pipeline.Executor().set_executed_class(class_object=whole.cls).get_cell(pipeline.ncell(s, rr0, cc0)), 'evaluate')
+            ecell = got.value if got.ok else pipeline.entry_cell(titles[s], a)
+        r.count('entry_cell_given:' + how)
+        t = pipeline.translate(whole.path, entry=ecell)
         r.ev()
-        case = {'spec': spec, 'entry': [s, a], 'gid': gid}
+        case = {'spec': spec, 'entry': [s, a], 'gid': gid, 'entry_cell_given': how}
         if not t.ok:
             report(r, ID, None, case, t.brief(), 'a slice', monitor='translate-acyclic')
             continue
